@@ -335,6 +335,26 @@ func runC11(args []string) error {
 					sum.violate(i, "a caller was released although no notification at or beyond its revision happened", map[string]any{"script": d, "waiter": id}, nil)
 				}
 			}
+			// ... and it must be released once such a notification happened
+			for id, ad := range adds {
+				if cancelledSet[id] {
+					continue
+				}
+				reached, seenAdd := false, false
+				for _, ph := range sc.phases {
+					for _, e := range ph {
+						if e.kind == 0 && e.id == id {
+							seenAdd = true
+						}
+						if seenAdd && e.kind == 2 && e.table == ad.table && e.rev >= ad.rev {
+							reached = true
+						}
+					}
+				}
+				if a, answered := res.answers[id]; reached && (!answered || a != 0) {
+					sum.violate(i, "a waiting caller is not released although a leader index at or beyond its revision was applied", map[string]any{"script": d, "waiter": id, "revision": ad.rev}, nil)
+				}
+			}
 		}
 	}
 	if unstable > 0 {
@@ -402,5 +422,6 @@ func runC11(args []string) error {
 		sum.Samples = append(sum.Samples, hf.Descr[0])
 	}
 	sum.CasesFiles = append(names, hnames...)
+	runC11Forwarding(sum)
 	return sum.write(rf.Out, "c11")
 }
